@@ -375,6 +375,8 @@ func (w *World) Exec(op hx.Zs) (out []hx.Zs) {
 			out = append(out, append(hx.Zs{12, 1}, EncodeItems(items, len(w.ti.Fields))...))
 		}
 		return append(out, w.changed()...)
+	case 3:
+		return w.overlap(r)
 	case 1:
 	default:
 		return []hx.Zs{{97}}
@@ -508,3 +510,71 @@ func ReturnsData(family int, op hx.Zs) bool {
 }
 
 func (w *World) String() string { return fmt.Sprintf("world(family %d)", w.Family) }
+
+// overlap executes operation 3 (coq/Model/WriteStore.v Overlap): the write datagram of the bound peer
+// and a local FeatureLocal.UpdateData of the same function, released together on two goroutines.
+// Observations: answer to the write, result of the local update, DataCopy afterwards, the events.
+func (w *World) overlap(r *rd) (out []hx.Zs) {
+	wItems := r.items()
+	wfpA, wfdA := r.filter(), r.filter()
+	lItems := r.items()
+	lfpA, lfdA := r.filter(), r.filter()
+	if r.bad || w.ti == nil || w.Family != 3 {
+		return []hx.Zs{{97}}
+	}
+	wData, lData := w.ti.BuildData(wItems), w.ti.BuildData(lItems)
+	msg := w.datagram(w.rfClient.Address(), w.lfServer.Address(), model.CmdClassifierTypeWrite,
+		w.ti.Cmd(wData, w.ti.BuildFilter(true, wfpA), w.ti.BuildFilter(false, wfdA)), true)
+	ref := w.ctr
+	lfp, lfd := w.ti.BuildFilter(true, lfpA), w.ti.BuildFilter(false, lfdA)
+	nev := len(w.events)
+
+	codeW, codeL := int64(3), int64(0)
+	start := make(chan struct{})
+	var wg sync.WaitGroup
+	wg.Add(2)
+	go func() {
+		defer wg.Done()
+		defer func() {
+			if e := recover(); e != nil {
+				codeW = 2
+			}
+		}()
+		<-start
+		if _, err := w.reader.HandleSpineMesssage(msg); err != nil {
+			codeW = 3
+		} else {
+			codeW = -1
+		}
+	}()
+	go func() {
+		defer wg.Done()
+		defer func() {
+			if e := recover(); e != nil {
+				codeL = 2
+			}
+		}()
+		<-start
+		if err := w.lfServer.UpdateData(w.ti.Function, lData.Interface(), lfp, lfd); err != nil {
+			codeL = 1
+		}
+	}()
+	close(start)
+	wg.Wait()
+	if codeW == -1 {
+		if c := w.result(ref); c >= 0 {
+			codeW = c
+		} else {
+			codeW = 3
+		}
+	}
+	out = append(out, hx.Zs{10, codeW}, hx.Zs{10, codeL}, w.storeObs())
+	w.evMu.Lock()
+	evs := append([]any(nil), w.events[nev:]...)
+	w.evMu.Unlock()
+	for range evs {
+		out = append(out, hx.Zs{13})
+	}
+	w.w.take()
+	return out
+}
